@@ -80,7 +80,11 @@ struct jls_core_fsr_s {
     uint8_t write_omit_data;      // omit level 0 sample data. >1=enabled, else disabled
     uint8_t shift_amount;
     uint8_t shift_buffer;
+#ifdef JLS_VERIF_FSR_BUFFER_WORDS   // verification hook: smaller scratch buffer, all uses go through sizeof()
+    uint64_t buffer_u64[JLS_VERIF_FSR_BUFFER_WORDS];
+#else
     uint64_t buffer_u64[4096];     // for shifting incoming sample data on skips & duplicates
+#endif
     struct jls_core_fsr_level_s * level[JLS_SUMMARY_LEVEL_COUNT];  // level 0 unused
 
     struct jls_tmap_s * tmap;     // on read, map UTC to sample_id
